@@ -213,7 +213,7 @@ def cases(tier):
                 if spec['N'] == 3 and famname in ('maxaffine', 'interval'):
                     spec = dict(spec)
                 cs.append(dict(id="%s-%s-%d" % (key, famname, vi), cls=key, family=famname, spec=spec,
-                               timeout_ms=30000 if tier == 'quick' else 90000))
+                               timeout_ms=60000 if tier == 'quick' else 120000))
     return cs
 
 
